@@ -1,6 +1,6 @@
 From Coq Require Import List NArith Bool.
 From V.gen Require Consts.
-From V.C12 Require Import Model Proofs Inv2 Async Sched.
+From V.C12 Require Import Model Proofs Inv2 Async Sched Progress.
 Import ListNotations.
 Open Scope N_scope.
 From V.C12 Require Import Properties.
@@ -146,6 +146,25 @@ Check (C12_no_read_without_slot :
     e_alive (cn s x) = true -> can_reserve c x s = false ->
     let s' := conn_poll c x s in
     carrier (glo s' (negb x)) = carrier (glo s (negb x)) /\ e_nq (hn s' x) = e_nq (hn s x)).
+Check (C12_outbound_progress :
+  forall (c : cfg) (x : bool) (s : st),
+  e_alive (cn s x) = true -> wgate (glo s x) = true ->
+  Forall (fun n => n_len n <= c_max (ecf c x)) (opt_list (e_cur (cn s x)) ++ e_sq (cn s x) ++ e_aq (cn s x)) ->
+  let '(s1, refused) := out_phase c x s in
+  refused = false /\ e_cur (cn s1 x) = None /\ e_sq (cn s1 x) = [] /\ e_aq (cn s1 x) = [] /\ e_sk (cn s1 x) = [] /\
+  (Forall (fun n => n_sync n = true) (e_sq (cn s x)) -> Forall (fun n => n_sync n = false) (e_aq (cn s x)) ->
+   forall k m, proj k m (carrier (glo s1 x)) = proj k m (pipe s x))).
+Check (C12_inbound_progress :
+  forall (c : cfg) (y : bool) (s : st) (n : notif) (rest : list notif),
+  e_alive (cn s y) = true -> e_shut (cn s y) = false -> killed s = false ->
+  snd (out_phase c y s) = false -> can_reserve c y s = true ->
+  rgate (glo s (negb y)) = true -> carrier (glo s (negb y)) = n :: rest -> n_len n <= c_max (ecf c y) ->
+  exists more, e_nq (hn (conn_poll c y s) y) = e_nq (hn s y) ++ n :: more).
+Check (C12_handle_progress :
+  forall (c : cfg) (y : bool) (s : st) (k : N) (n : notif) (q : list notif) (b : N),
+  e_evs (hn s y) = [] -> e_peers (hn s y) = Some k -> e_nq (hn s y) = n :: q -> n_per n = k -> b <> 0 ->
+  let '(s', e) := h_poll c y b s in
+  e = UNotif n /\ e_nq (hn s' y) = q /\ e_del (gl s' y) = e_del (gl s y) ++ [n]).
 Check (C12_quiescence_is_a_schedule :
   forall (c : cfg) (hs : list (list bool)) (xs : list action),
     exists ts, arun c 0 (init hs) xs = final c hs ts).
